@@ -23,12 +23,12 @@ func init() {
 // entries is the number of such loops the function may contain: an additional
 // unclassified loop in the same function is reported.
 var loopTable = map[string][]string{
-	"(*Context).integerPower":     {"b is halved (Rsh 1) every iteration until zero"},
-	"(*Decimal).Reduce":           {"i divided by 10000 per iteration", "i divided by 10 per iteration (i != 0)", "coefficient divided by ten per iteration; exits at the first non-zero digit"},
-	"(*constWithPrecision).get":   {"precision divided by 16 per iteration", "precision halved per iteration"},
-	"(Condition).String":          {"one set bit of r is cleared per iteration (closed 12-bit set, C02.R1)"},
-	"(*Context).Sqrt":             {"p = min(2p-2, maxp) strictly increases from 3 to maxp; the exit does not depend on any wrapper result"},
-	"(*Context).Cbrt":             {"range reduction: z multiplied by 8 per iteration; context derives from BaseContext (fixed traps) — DESIGN C04.R4", "range reduction: z divided by 8 per iteration; context derives from BaseContext (fixed traps) — DESIGN C04.R4"},
+	"(*Context).integerPower":   {"b is halved (Rsh 1) every iteration until zero"},
+	"(*Decimal).Reduce":         {"i divided by 10000 per iteration", "i divided by 10 per iteration (i != 0)", "coefficient divided by ten per iteration; exits at the first non-zero digit"},
+	"(*constWithPrecision).get": {"precision divided by 16 per iteration", "precision halved per iteration"},
+	"(Condition).String":        {"one set bit of r is cleared per iteration (closed 12-bit set, C02.R1)"},
+	"(*Context).Sqrt":           {"p = min(2p-2, maxp) strictly increases from 3 to maxp; the exit does not depend on any wrapper result"},
+	"(*Context).Cbrt":           {"range reduction: z multiplied by 8 per iteration; context derives from BaseContext (fixed traps) — DESIGN C04.R4", "range reduction: z divided by 8 per iteration; context derives from BaseContext (fixed traps) — DESIGN C04.R4"},
 }
 
 func ruleLoopsBounded(w *World, r *RuleResult) {
@@ -424,12 +424,17 @@ func ruleParserWellFormed(w *World, r *RuleResult) {
 		r.anchorMissing("(*Decimal).setString")
 		return
 	}
-	sets := w.callsTo(f, "(*BigInt).SetString")
+	var sets []*ssa.Call
+	top := f
+	for _, pf := range w.parserFuncs() {
+		sets = append(sets, w.callsTo(pf, "(*BigInt).SetString")...)
+	}
 	if len(sets) == 0 {
 		r.anchorMissing("(*Decimal).setString: call of (*BigInt).SetString")
 		return
 	}
 	for i, c := range sets {
+		f := c.Parent()
 		key := "(*Decimal).setString | digits handed to BigInt.SetString are sign-free"
 		if i > 0 {
 			key = fmt.Sprintf("%s #%d", key, i+1)
@@ -474,7 +479,12 @@ func ruleParserWellFormed(w *World, r *RuleResult) {
 	nan := forms["NaN"]
 	key := "(*Decimal).setString | Form is a NaN form on every error return"
 	snan := forms["NaNSignaling"]
-	bad := w.formAtReturns(f, func(rt *ssa.Return) bool { return w.isErrorReturn(rt) }, func(v int64) bool { return v == nan || v == snan })
+	var bad []string
+	for _, pf := range w.parserFuncs() {
+		isTop := pf == top
+		// inside a helper "not stored yet" (-1) is the state the parser entered it with
+		bad = append(bad, w.formAtReturns(pf, func(rt *ssa.Return) bool { return w.isErrorReturn(rt) }, func(v int64) bool { return v == nan || v == snan || (v == -1 && !isTop) })...)
+	}
 	if len(bad) == 0 {
 		r.ok(key, w.pos(f.Pos()), "the only Form stores reaching an error return store NaN", true)
 	} else {
@@ -484,18 +494,20 @@ func ruleParserWellFormed(w *World, r *RuleResult) {
 	key = "(*Decimal).setString | finite success returns through setExponent"
 	okExp := false
 	fin := forms["Finite"]
-	for _, b := range f.Blocks {
-		for _, in := range b.Instrs {
-			st, ok := in.(*ssa.Store)
-			if !ok || w.exprOf(f, st.Addr).String() != "&d.Form" {
-				continue
-			}
-			if k, ok := st.Val.(*ssa.Const); ok && ci(k) == fin {
-				good, _ := mustPassFrom(st, func(x ssa.Instruction) bool {
-					c, ok := x.(*ssa.Call)
-					return ok && w.calleeName(c) == "(*Decimal).setExponent"
-				}, nil)
-				okExp = good
+	for _, pf := range w.parserFuncs() {
+		for _, b := range pf.Blocks {
+			for _, in := range b.Instrs {
+				st, ok := in.(*ssa.Store)
+				if !ok || !w.recvFieldStore(pf, st, "Form") {
+					continue
+				}
+				if k, ok := st.Val.(*ssa.Const); ok && ci(k) == fin {
+					good, _ := mustPassFrom(st, func(x ssa.Instruction) bool {
+						c, ok := x.(*ssa.Call)
+						return ok && w.calleeName(c) == "(*Decimal).setExponent"
+					}, nil)
+					okExp = good
+				}
 			}
 		}
 	}
@@ -566,7 +578,7 @@ func (w *World) formAtReturns(f *ssa.Function, sel func(*ssa.Return) bool, okVal
 				cur[k] = true
 			}
 			for _, x := range b.Instrs {
-				if st, ok := x.(*ssa.Store); ok && w.exprOf(f, st.Addr).String() == "&d.Form" {
+				if st, ok := x.(*ssa.Store); ok && w.recvFieldStore(f, st, "Form") {
 					cur = set{}
 					if k, ok := st.Val.(*ssa.Const); ok {
 						cur[ci(k)] = true
@@ -598,7 +610,7 @@ func (w *World) formAtReturns(f *ssa.Function, sel func(*ssa.Return) bool, okVal
 			cur[k] = true
 		}
 		for _, x := range b.Instrs {
-			if st, ok := x.(*ssa.Store); ok && w.exprOf(f, st.Addr).String() == "&d.Form" {
+			if st, ok := x.(*ssa.Store); ok && w.recvFieldStore(f, st, "Form") {
 				cur = set{}
 				if k, ok := st.Val.(*ssa.Const); ok {
 					cur[ci(k)] = true
